@@ -110,6 +110,9 @@ def flow_rule(rng, res, kind):
             f.update(tcs=2, cb=rng.choice([0, 1]), lm=1000, hm=100, ml=1024, mh=rng.choice([2048, 1 << 20]), st=0)
         elif v < 0.95:
             f.update(rel=1, ref="f9", st=rng.choice([0, 2000]))
+        elif v < 0.975:
+            kind = "custom"                     # built by the harness' own generator (strategy 7 / behaviour 9)
+            f.update(tcs=7, cb=9, th=H(rng.randint(1, 400)), st=0)
         else:
             kind = "unbuildable"
             if rng.random() < 0.5:
@@ -189,6 +192,9 @@ def cb_rule(rng, res, kind, unbuildable_ok=True):
         if unbuildable_ok and rng.random() < 0.04:
             kind = "unbuildable"
             f.update(s=rng.choice([3, 8]))
+        elif unbuildable_ok and rng.random() < 0.04:
+            kind = "custom"                     # built by the harness' own generator (strategy 7)
+            f.update(s=7, th=H(rng.randint(0, 400)))
     else:
         c = int(kind[3:])
         if c == 1: f.update(res="_")
@@ -230,7 +236,7 @@ def pick_rule(rng, mod, res, stats):
         return None, "nil"
     kind = "valid" if r < 0.62 else "inv" + str(rng.randint(1, ncl))
     f, kind = fn(rng, res, kind)
-    stats["invalid" if kind.startswith("inv") else kind] += 1
+    stats["invalid" if kind.startswith("inv") else kind] = stats.get("invalid" if kind.startswith("inv") else kind, 0) + 1
     return f, kind
 
 
@@ -253,7 +259,7 @@ def delta(rng, mod, r):
 
 def load_op(mod, kind, res, rules):
     body = f"{len(rules)}" + "".join(" " + tok(mod, x) for x in rules)
-    return f"load {mod} {body}" if kind == "load" else f"loadres {mod} {res} {body}"
+    return f"load {mod} {body}" if kind == "load" else f"{kind} {mod} {res} {body}"
 
 
 def near_batches(rules, res):
@@ -314,6 +320,22 @@ def gen_case(rng, cid, stats):
             kind, res, rules, touched = prev                                   # identical reload (fresh objects, same values)
             op = load_op(mod, kind, res, rules)
             kinds.append((mod, "again"))
+        elif r < 0.155 and mod in ("flow", "cb"):
+            # fault episode: the custom generator errors / panics during a load; then it recovers and the caller retries the identical list
+            g = rng.choice(["panic", "panic", "fail"])
+            res = rng.choice(names)
+            cust = dict(flow_rule(rng, res, "valid")[0], tcs=7, cb=9, th=H(1000 + len(ops)), st=0) if mod == "flow" \
+                else dict(cb_rule(rng, res, "valid", False)[0], s=7, th=H(1000 + len(ops)))
+            rules = [pick_rule(rng, mod, res, stats)[0] for _ in range(rng.choice([0, 1, 2]))]
+            rules.insert(rng.randint(0, len(rules)), cust)
+            kind = rng.choice(["load", "loadres", "loadresx"])
+            touched = list(names) if kind == "load" else [res]
+            first = load_op(mod, kind, res, rules)
+            ops += [f"genmode {mod} {g}", first] + observe(rng, mod, touched, rules=rules) + [f"genmode {mod} ok"]
+            op = first
+            last[mod] = (kind, res, rules, touched)
+            stats["fault"] = stats.get("fault", 0) + 1
+            kinds.append((mod, "fault", g, kind))
         elif r < 0.20 and prev and mod in ("flow", "hot", "cb", "iso") and any(x is not None for x in prev[2]):
             kind, res, rules, touched = prev                                   # duplicate an identical rule / drop one of two duplicates
             rules = list(rules)
@@ -368,9 +390,10 @@ def gen_case(rng, cid, stats):
                     stats["foreign"] += 1
                 f, k = pick_rule(rng, mod, rr if rr != "_" else names[0], stats)
                 rules.append(f); ks.append(k)
-            op = load_op(mod, "loadres", res, rules)
+            lk = "loadresx" if mod != "out" and rng.random() < 0.3 else "loadres"      # loadresx: the caller reuses one slice per resource
+            op = load_op(mod, lk, res, rules)
             touched = [res] + ([rng.choice(names)] if rng.random() < 0.5 else [])       # plus another one: locality
-            last[mod] = ("loadres", res, rules, touched)
+            last[mod] = (lk, res, rules, touched)
             kinds.append((mod, "loadres", tuple(sorted(set(ks)))))
         elif r < 0.95:
             res = rng.choice(names)
@@ -400,6 +423,37 @@ def _bases():
         "sys": [dict(metric=3, th2=8, st=-1, id="_"), dict(metric=4, th2=1, st=0, id="_")],
         "out": [dict(pct=1, rec=0, act=0, recyc=0, att=0, inner=dict(C, res="o1"))],
     }
+
+
+def fault_corpus():
+    """the custom generator errors / panics during a load of every shape, then recovers and the identical list is retried;
+    and consecutive per-resource loads through one reused slice (loadresx) for all four modules"""
+    cases = []
+    bases = _bases()
+    for mod in ("flow", "cb"):
+        A = bases[mod][0]
+        res = A["res"]
+        X = dict(A, tcs=7, cb=9, th=H(6)) if mod == "flow" else dict(A, s=7)
+        B = dict(A, th=H(6)) if mod == "flow" else dict(A, th=H(10))
+        for g in ("panic", "fail"):
+            for path in ("load", "loadres", "loadresx"):
+                for pre, lst in (([], [X]), ([A], [A, X]), ([A], [X, B]), ([A, X], [A, dict(X, th=H(8))]), ([A, X], [B, X])):
+                    ops = []
+                    if pre:
+                        ops += [load_op(mod, path, res, pre)] + observe(None, mod, [res], everything=True, rules=pre)
+                    ops += [f"genmode {mod} {g}", load_op(mod, path, res, lst)] + observe(None, mod, [res], everything=True, rules=lst)
+                    ops += [f"genmode {mod} ok", load_op(mod, path, res, lst)] + observe(None, mod, [res], everything=True, rules=lst)
+                    ops += [load_op(mod, path, res, lst)]
+                    cases.append(Case(f"fault-{mod}-{g}-{path}-{len(cases)}", ops, tags=("corpus", "fault")))
+    two = {"flow": (bases["flow"][0], dict(bases["flow"][0], th=H(6))), "iso": (bases["iso"][0], dict(bases["iso"][0], th=3)),
+           "hot": (bases["hot"][0], dict(bases["hot"][0], th=100)), "cb": (bases["cb"][0], dict(bases["cb"][0], th=H(10)))}
+    for mod, (A, B) in two.items():
+        res = A["res"]
+        ops = []
+        for lst in ([A], [B], [A], [A, B], [B, A], [B], [A]):
+            ops += [load_op(mod, "loadresx", res, lst)] + observe(None, mod, [res], everything=True, rules=lst)
+        cases.append(Case(f"slice-reuse-{mod}", ops, tags=("corpus", "slice")))
+    return cases
 
 
 def dup_corpus():
@@ -483,7 +537,7 @@ _KINDS = {}
 
 
 def gen(ctx, n):
-    stats = ctx.cov.setdefault("generator_rule_kinds", {"valid": 0, "invalid": 0, "nil": 0, "unbuildable": 0, "foreign": 0, "delta": 0, "dup": 0})
+    stats = ctx.cov.setdefault("generator_rule_kinds", {"valid": 0, "invalid": 0, "nil": 0, "unbuildable": 0, "foreign": 0, "delta": 0, "dup": 0, "custom": 0, "fault": 0})
     res = []
     for i in range(n):
         c, kinds = gen_case(ctx.rng, f"g{ctx.seed}-{ctx.cov.get('traces_validated_against_impl', 0)}-{i}", stats)
@@ -499,7 +553,7 @@ def corpus():
     for p in sorted(glob.glob(os.path.join(ROOT, "corpus", PROP, "*.ops"))):
         ops = [l.rstrip("\n") for l in open(p) if l.strip() and not l.startswith("#") and not l.startswith("case ")]
         res.append(Case(os.path.basename(p), ops, tags=("corpus",)))
-    return res + dup_corpus() + replace_corpus() + delta_corpus()
+    return res + fault_corpus() + dup_corpus() + replace_corpus() + delta_corpus()
 
 
 def densify(ops, rng):
@@ -508,7 +562,7 @@ def densify(ops, rng):
     for o in ops:
         out.append(o)
         t = o.split()
-        if t[0] in ("load", "loadres", "clear", "clearres") and rng.random() < 0.8:
+        if t[0] in ("load", "loadres", "loadresx", "clear", "clearres") and rng.random() < 0.8:
             out += observe(rng, t[1], RES.get(t[1], []), everything=True)
     return out
 
@@ -518,7 +572,7 @@ def nontrivial(case, impl):
     for l in impl:
         op, _, r = l.partition(" => ")
         t = op.split()
-        if t[0] in ("load", "loadres") and r == "changed":
+        if t[0] in ("load", "loadres", "loadresx") and r == "changed":
             rules = t[3:] if t[0] == "load" else t[4:]
             if "-" in rules or any(_is_invalid(t[1], x) for x in rules):
                 mixed = True
